@@ -168,6 +168,14 @@ func exhaustiveCert(g *gen) {
 			s.Validity = Validity{From: "2024-02-29", Duration: du}
 			batch(fmt.Sprintf("c04-duration-range-%d", i), plainRoot(), []Cfg{s})
 		}
+		// the end of the validity itself must stay within what X.509 (and the hashed JSON form) can express (F28): start date plus
+		// duration, and start date plus the default lifetime
+		for i, v := range []Validity{{From: "9999-12-31", Duration: "1d"}, {From: "9999-12-30", Duration: "1d"}, {From: "9000-01-01", Duration: "1000y"}, {From: "9000-01-01", Duration: "999y11m30d"},
+			{From: "2024-01-01", Duration: "9999y"}, {From: "9996-01-01"}, {From: "9994-12-31"}, {From: "9999-01-01", Until: "9999-12-31"}} {
+			s := plainSub(i)
+			s.Validity = v
+			batch(fmt.Sprintf("c04-end-range-%d", i), plainRoot(), []Cfg{s})
+		}
 		// entities that are built seconds after the configurations were read (slow key generation in front of them): an end date
 		// without a start date stays that date, a duration counts from the moment of reading/building consistently
 		if tz := os.Getenv("TZ"); tz == "" || tz == "UTC" {
